@@ -51,7 +51,7 @@ def gen_ref(r):
     if k == "var":
         return ["ref", "variables", r.choice(["x", "n"]), None]
     if k == "vark":
-        return r.choice([["ref", "variables", "t", "k"], ["ref", "variables", "z", "k"], ["ref", "variables", "z", "b"], ["ref", "variables", "z", "e"]])
+        return r.choice([["ref", "variables", "t", "k"], ["ref", "variables", "z", "k"], ["ref", "variables", "z", "b"], ["ref", "variables", "z", "e"], ["ref", "variables", "yr", "2023"]])
     if k == "stacki":
         return ["ref", "variables", "st", str(r.choice([0, 1]))]
     if k == "stacklen":
@@ -241,7 +241,7 @@ def run_case(case, agg):
     tgt = f', "{target}"' if target else ""
     stream = target or "default"
     pre = 'print("at $.csvpath.line_number: $.csvpath.valid $.csvpath.count_matches", "pre") #2 == "C" -> fail() ' if case.get("prelude") else ""
-    prog = f'~ owner: team-a note: v1 id: pr1 ~ $pr.csv[1*][@x = #a @n = count_lines() @t.k = #d @z.k = mod(count_lines(), 2) @z.b = equals(#a, "A1") @z.e = #b push("st", #b) push("st", #a) {pre}{pq}("{tmpl}"{tgt}) {gate}]'
+    prog = f'~ owner: team-a note: v1 id: pr1 ~ $pr.csv[1*][@x = #a @n = count_lines() @t.k = #d @z.k = mod(count_lines(), 2) @z.b = equals(#a, "A1") @z.e = #b @yr.2023 = #d push("st", #b) push("st", #a) {pre}{pq}("{tmpl}"{tgt}) {gate}]'
     c, cap = env.new_csvpath(["collect", "print"])
     cap2 = env.CapturePrinter()
     c.add_printer(cap2)
